@@ -522,6 +522,8 @@ func runScenario(d *driver, kind string) {
 		}
 	case "legacy":
 		d.legacyScenario()
+	case "rcparallel":
+		d.rcParallel()
 	case "storm":
 		d.storm()
 	case "recompute":
